@@ -9,6 +9,7 @@ import (
 	_ "verif/ctxprops"
 	_ "verif/docstore"
 	"verif/fsprops"
+	_ "verif/netprops"
 	"verif/ops"
 )
 
